@@ -21,6 +21,8 @@ func runFault(cfg Config) {
 	rnd := rand.New(rand.NewSource(cfg.Seed))
 	tf := NewTraceFile(cfg.Out)
 	defer tf.Close()
+	bfile = NewBTraceFile(cfg.BackendOut)
+	defer bfile.Close()
 	run := 0
 	for i := 0; i < cfg.Programs; i++ {
 		p := GenProgram(rnd, cfg.Gen, i)
@@ -67,6 +69,8 @@ func runFault(cfg Config) {
 	}
 }
 
+var bfile *BTraceFile
+
 func faultRun(ctx context.Context, cfg Config, p0 *Program, pi, run int, f *decor.Fault, tf *TraceFile, tag string) (int, []string) {
 	// fresh store names per run so that process-wide caches cannot leak between runs
 	p := *p0
@@ -76,11 +80,12 @@ func faultRun(ctx context.Context, cfg Config, p0 *Program, pi, run int, f *deco
 	}
 	folder := filepath.Join(cfg.Data, fmt.Sprintf("f%d_%d", pi, run))
 	env := sopenv.New(folder, decor.NewHub())
-	env.Hub.Record = false
+	env.Hub.Record = bfile != nil
 	env.GateAll = true
 	r := &Runner{Env: env, Rec: &Recorder{}, MaxTime: time.Duration(envInt("VERIF_MAXTIME_MS", 5000)) * time.Millisecond}
 	t0 := time.Now()
 	var kinds []string
+	var all []decor.Event
 	n := 0
 	last := len(p.Txns) - 1
 	for ti, spec := range p.Txns {
@@ -89,8 +94,8 @@ func faultRun(ctx context.Context, cfg Config, p0 *Program, pi, run int, f *deco
 		if ti == last {
 			ff = f
 			if f == nil {
+				all = append(all, env.Hub.Take()...)
 				env.Hub.Record = true
-				env.Hub.Take()
 			}
 		}
 		ok, err := r.RunTxn(ctx, label, &p, spec, ff)
@@ -101,8 +106,10 @@ func faultRun(ctx context.Context, cfg Config, p0 *Program, pi, run int, f *deco
 		if ti == last {
 			n = env.Hub.Count(label)
 			if f == nil {
-				env.Hub.Record = false
-				kinds = stepKinds(env.Hub.Take(), label, n)
+				evs := env.Hub.Take()
+				all = append(all, evs...)
+				env.Hub.Record = bfile != nil
+				kinds = stepKinds(evs, label, n)
 			}
 			r.Observe(ctx, &p)
 			if f != nil && !ok {
@@ -118,6 +125,8 @@ func faultRun(ctx context.Context, cfg Config, p0 *Program, pi, run int, f *deco
 			r.Observe(ctx, &p)
 		}
 	}
+	all = append(all, env.Hub.Take()...)
+	bfile.Write(fmt.Sprintf("p%d/%s", pi, tag), all, map[string]any{"tag": tag})
 	reached := f == nil || env.Hub.Reached[fmt.Sprintf("t%d", last+1)]
 	tf.Write(fmt.Sprintf("p%d/%s", pi, tag), r.Rec.Take(), map[string]any{"program": p, "reached": reached, "tag": tag, "files": leftovers(env), "wall_ms": time.Since(t0).Milliseconds()})
 	if os.Getenv("VERIF_KEEP_DATA") == "" {
